@@ -9,4 +9,5 @@ def run(tier, seed):
     c.bounds = {'history_length': '<= 2 steps (quick) / 3 (thorough)', 'keys': 'a, b, A, "", " x", _', 'operations': '7 per step through `.k` and `["k"]`', 'insertion_orders': 'all 6 orders of 3 keys'}
     c.outside = ['longer histories', 'keys outside the alphabet']
     c.run_family('objects', ts, ('exit', 'stdout', 'stderr-empty', 'panic', 'hang'), objects.role, par_templates=4, par_paths=4)
+    c.run_random(('exit', 'stdout', 'stderr-empty', 'panic', 'hang'))
     return c.finish()
